@@ -153,6 +153,10 @@ def run(model: RepoModel, rep, tier: str):
     generic4.check_relative_import_levels(model, rep, "C05.R14")
     rep.rule("C05.R15", "every name of `global a, b` / `nonlocal a, b` is lowered: the row is emitted inside a loop over the statement's children", 2)
     generic4.check_listed_names_all_lowered(model, rep, "C05.R15", sorted(r for r in model.modules if r.startswith("lang/") and r.endswith("_parser.py")))
+    from .. import generic5
+    rep.rule("C05.R16", "`from . import x` stays in the importing file's package: the dot joining source and name is not added after a source "
+                        "that consists of dots", 1)
+    generic5.check_import_path_join(model, rep, "C05.R16")
     from ..generic import check_accumulators
     check_accumulators(model, rep, "C05.R8", [SH, IH], C05_ADJUDICATED,
                        "declarations, visible scopes or import candidates gathered so far are incomplete, so some names stay unresolved or bind elsewhere", 5)
@@ -1348,6 +1352,16 @@ C05_ADJUDICATED = {
 }
 
 MUTANTS = [
+    ("joining dot added after a dots-only source", IH,
+     lambda s: M.text_replace(s, "            if not import_path.endswith(\".\"):\n                import_path += \".\"\n", "            import_path += \".\"\n"),
+     "C05.R16"),
+    ("nonlocal lowers the first name only", "lang/python_parser.py",
+     lambda s: M.text_replace(s, "            for child in node.named_children:\n                shadow_expr = self.parse(child, statements)\n                self.append_stmts(statements, node, {\"nonlocal_stmt\": {\"name\": shadow_expr}})",
+                              "            shadow_expr = self.parse(node.named_children[0], statements)\n        self.append_stmts(statements, node, {\"nonlocal_stmt\": {\"name\": shadow_expr}})"),
+     "C05.R15"),
+    ("relative import climbs one level per dot", IH,
+     lambda s: M.text_replace(s, "                levels_up = leading_dots - 1", "                levels_up = leading_dots"),
+     "C05.R14"),
     ("on-demand import analysis only for the last component", IH,
      lambda s: M.text_replace(s, "                    if candidate_node.symbol_type == LIAN_SYMBOL_KIND.UNIT_SYMBOL:\n                        self.analyze_unit_import_stmts(candidate_node.symbol_id)",
                               "                    if candidate_node.symbol_type == LIAN_SYMBOL_KIND.UNIT_SYMBOL and len(import_path_list) == 1:\n                        self.analyze_unit_import_stmts(candidate_node.symbol_id)"),
